@@ -89,4 +89,29 @@ def toJsonNameAux : Bool → List Char → List Char
 
 def toJsonName (s : List Char) : List Char := toJsonNameAux false s
 
+/-! ### to_camel_case (the `camel_case` filter: key of the REST transport's table of REQUIRED query fields) -/
+
+/-- `re.split(r"[_-]", s)`: never empty; a separator at either end yields an empty item there -/
+def splitSep : List Char → List (List Char)
+  | [] => [[]]
+  | c :: cs =>
+    if c = '_' ∨ c = '-' then [] :: splitSep cs
+    else match splitSep cs with
+      | [] => [[c]]
+      | h :: t => (c :: h) :: t
+
+/-- `str.capitalize` on ASCII -/
+def capitalize : List Char → List Char
+  | [] => []
+  | c :: cs => upperChar c :: cs.map lowerChar
+
+/-- `to_camel_case`: `items = re.split(r"[_-]", to_snake_case(s)); items[0].lower() + "".join(x.capitalize() for x in items[1:])` -/
+def toCamelCase (s : List Char) : List Char :=
+  match splitSep (toSnakeCase s) with
+  | [] => []
+  | h :: t => h.map lowerChar ++ (t.map capitalize).flatten
+
+/-- `w` has no capital letter (every reserved word but `None`, `True`, `False`) -/
+def noUpper (w : String) : Bool := w.toList.all fun c => !('A' ≤ c ∧ c ≤ 'Z')
+
 end GapicModel.Model.Names
